@@ -773,6 +773,15 @@ def shrink_case(case, sig, bins):
             return sig in o[0]
         except Exception:
             return False
+    if m["k"] == "tick":
+        ticks = [p_ops(t) for t in m["ops"].split("/")]
+        mk = lambda ts: f"k=tick a={m['a']} w={m['w']} ops={'/'.join(r_ops(t) for t in ts)} seed={m['seed']}"
+        for i in range(len(ticks)):
+            ticks[i] = vf.shrink_list(ticks[i], lambda cand: bool(cand) and fails(mk(ticks[:i] + [cand] + ticks[i + 1:])),
+                                      max_rounds=30)
+        return mk(ticks)
+    if m["k"] not in ("seq", "pair"):
+        return case
     if m["k"] == "seq":
         a, ops = p_state(m["a"]), p_ops(m["ops"])
         ops = vf.shrink_list(ops, lambda cand: fails(mk_seq(a, cand, m["canon"], m["seed"])), max_rounds=60)
